@@ -170,6 +170,28 @@ theorem tie_keyKindCopies_families :
     keyKindCopies.map (·.1) = ["defineOwnProperty", "hasProperty", "getOwnProp", "get", "proxySet", "delete",
       "hasOwnProperty", "setOwn", "setForeign"] := by decide
 
+/-- which methods of the handler and of the target each trap wrapper calls, in source order (Str copy; the Idx and Sym
+copies are the same text by `tie_keyKindCopies_agree`).  This is the call structure `Model.proxyLayer` transcribes:
+trap first (= Reflect.x = the target's internal method), then the post-check with `target.self.getOwnProp…` as its
+argument, `target.self.isExtensible` / `target.self.proto` inside the simple traps; the last entry of each list is the
+no-trap fall-through to the target.  (Whether `isExtensible` is consulted inside a post-check is decided by the
+regenerated check functions; the resulting trap-call sequences are compared by the lock-step correspondence.) -/
+theorem tie_callSequences : callSequences = [
+  ("proto", ["p.checkHandler().getPrototypeOf", "p.checkHandler", "p.val.runtime.toObject", "target.self.isExtensible", "p.__sameValue", "target.self.proto", "target.self.proto"]),
+  ("setProto", ["p.checkHandler().setPrototypeOf", "p.checkHandler", "target.self.isExtensible", "p.__sameValue", "target.self.proto", "p.val.runtime.typeErrorResult", "target.self.setProto"]),
+  ("isExtensible", ["p.checkHandler().isExtensible", "p.checkHandler", "target.self.isExtensible", "target.self.isExtensible"]),
+  ("preventExtensions", ["p.checkHandler().preventExtensions", "p.checkHandler", "p.val.runtime.typeErrorResult", "target.self.isExtensible", "target.self.preventExtensions"]),
+  ("defineOwnPropertyStr", ["p.checkHandler().definePropertyStr", "p.checkHandler", "p.proxyDefineOwnPropertyPreCheck", "p.proxyDefineOwnPropertyPostCheck", "target.self.getOwnPropStr", "target.self.defineOwnPropertyStr"]),
+  ("hasPropertyStr", ["p.checkHandler().hasStr", "p.checkHandler", "p.proxyHasChecks", "target.self.getOwnPropStr", "target.self.hasPropertyStr"]),
+  ("getOwnPropStr", ["p.checkHandler().getOwnPropertyDescriptorStr", "p.checkHandler", "p.proxyGetOwnPropertyDescriptor", "target.self.getOwnPropStr", "target.self.getOwnPropStr"]),
+  ("getStr", ["p.checkHandler().getStr", "p.checkHandler", "p.proxyGetChecks", "target.self.getOwnPropStr", "target.self.getStr"]),
+  ("proxySetStr", ["p.checkHandler().setStr", "p.checkHandler", "p.proxySetPreCheck", "p.proxySetPostCheck", "target.self.getOwnPropStr", "target.setStr"]),
+  ("deleteStr", ["p.checkHandler().deleteStr", "p.checkHandler", "p.proxyDeleteCheck", "target.self.getOwnPropStr", "target.self.deleteStr"]),
+  ("proxyOwnKeys", ["p.checkHandler().ownKeys", "p.checkHandler", "p.val.runtime.toObject", "keys.self.getStr", "keys.self.getIdx", "keySet.has", "keySet.add", "target.self.isExtensible", "target.self.iterateKeys()", "target.self.iterateKeys", "next", "keySet.has", "keySet.delete", "target.getOwnProp", "keySet.size"]),
+  ("apply", ["p.checkHandler().apply", "p.checkHandler", "p.call"]),
+  ("construct", ["p.checkHandler().construct", "p.checkHandler", "p.val.runtime.toObject", "p.ctor"])
+] := by rfl
+
 /-- every internal-method implementation of proxyObject reaches the handler only through checkHandler(),
 calls it, and dereferences the target only afterwards -/
 theorem tie_revocation_shape :
